@@ -61,7 +61,8 @@ def run(ctx: Ctx) -> None:
     for i in range(N):
         p = progen.gen_program(rnd, rnd.randint(1, 3))
         names = sorted(set(p.names) & set(re.findall(r'\b[A-Za-z_]\w*\b', p.src)))
-        pool = [x for x in ADVERSARIAL if x not in RESERVED and x not in names]
+        in_src = set(re.findall(r'\b[A-Za-z_]\w*\b', p.src))     # every identifier of the program (methods named like list / dict methods are not in p.names)
+        pool = [x for x in ADVERSARIAL if x not in RESERVED and x not in in_src]
         if len(pool) < len(names):
             pool = pool + ['q%d_x' % k for k in range(len(names))]
         targets = rnd.sample(pool, len(names))
